@@ -311,7 +311,18 @@ fn build_response(req: &Message<Vec<u8>>, qname: &str, qtype: Rtype, flags: Flag
     match class {
         RespClass::NoData | RespClass::NxDomainSoa | RespClass::CnameNoData => {
             let ttl = ttl_draw("up.soa_ttl");
+            // RFC 2308 "type 1" negative answers carry NS records next to
+            // the SOA, in whatever order: still a negative answer.
+            let ns_pos = sim::draw("up.negative_with_ns", 4);
+            let ns_ttl = if ns_pos == 1 || ns_pos == 2 { ttl_draw("up.ns_ttl") } else { 0 };
+            if ns_pos == 1 {
+                sim::stat("probe.negative_answer_with_ns_before_soa");
+                au.push((&apex, Class::IN, Ttl::from_secs(ns_ttl), Ns::new(dns::name(&format!("ns{:x}.cache.", serial))))).unwrap();
+            }
             au.push((&apex, Class::IN, Ttl::from_secs(ttl), soa)).unwrap();
+            if ns_pos == 2 {
+                au.push((&apex, Class::IN, Ttl::from_secs(ns_ttl), Ns::new(dns::name(&format!("ns{:x}.cache.", serial))))).unwrap();
+            }
             if flags.dnssec_ok {
                 au.push((&apex, Class::IN, Ttl::from_secs(ttl), sig(Rtype::SOA, ttl))).unwrap();
                 let mut bm = RtypeBitmap::<Vec<u8>>::builder();
@@ -779,11 +790,16 @@ async fn run(_tier: Tier) {
                 } else if sim::chance("q.plain_opt", 1, 4) {
                     req.set_udp_payload_size(1232);
                 }
-                let t_invoke = sim::now_ns();
-                let n_up_before = 0;
-                let _ = n_up_before;
-                ev!("q k={} {} {} {} {:?} more={:?} invoke", k, qname, qclass, qtype, flags, more);
+                // The request object may sit around for a while before its
+                // response is asked for: what counts is the moment the answer
+                // is looked up and served, not when the request was made.
                 let mut gr = conn.send_request(req);
+                if sim::chance("q.delay_before_get_response", 1, 6) {
+                    sim::stat("probe.request_object_waits_before_get_response");
+                    sim::sleep_ms(*sim::pick("q.delay_ms", &[1_000u64, 20_000, 150_000, 4_000_000, 500])).await;
+                }
+                let t_invoke = sim::now_ns();
+                ev!("q k={} {} {} {} {:?} more={:?} invoke", k, qname, qclass, qtype, flags, more);
                 let res = gr.get_response().await;
                 sim::sync_clock();
                 let t_return = sim::now_ns();
